@@ -31,8 +31,8 @@ def cases(tier, seed):
     for K in b["alphabets"]:
         pmax = b["pmax"] if K == "K0" else b["pmax_seed_alphabet"]
         for p, U in al.knotvectors(K, pmax, b["kmax"]):
-            if tier == "thorough" and p == 3 and len(set(U)) > 4:
-                continue
+            if tier == "thorough" and (p == 3 or K != "K0") and len(set(U)) > 4:
+                continue  # three interior knots: core alphabet, degree <= 2
             yield ("split", K, p, U, tier != "quick")
     for i in range(len(PAIRS)):
         yield ("pair", "", i, (), True)
